@@ -15,7 +15,7 @@ structure IfRec where
 def rxLimit (r : IfRec) : Nat := if r.cfg.mtu = 0 then r.img.length else r.cfg.mtu
 
 structure BlockSide where
-  ifs  : Array (Option IfRec) := Array.replicate 32 none
+  ifs  : Array (Option IfRec) := Array.replicate 256 none
   glob : Glob := {}
   prevTx : List (Nat × List Nat) := []     -- frames accepted by the port during the previous op (interface, bytes)
   curTx  : List (Nat × List Nat) := []
@@ -100,7 +100,7 @@ def blockStep (w : World) (b : BlockSide) (toks0 : List String)
     | _ => toks0
   match toks with
   | "iface" :: i :: attrs =>
-    (parseIdx i 32).bind fun I =>
+    (parseIdx i 256).bind fun I =>
     if (b.ifs[I]?.getD none).isSome then none else
     let init : Option (Cfg × Nat) := some ({ idx := I }, 0)
     let r := attrs.foldl (fun acc t => acc.bind (fun (c, buf0) =>
@@ -110,7 +110,7 @@ def blockStep (w : World) (b : BlockSide) (toks0 : List String)
     r.map fun (c, buf0) =>
       (w, { b with ifs := b.ifs.set! I (some { cfg := c, img := List.replicate c.mtu buf0, st := none }) }, ["ok"], [])
   | "set" :: i :: attrs =>
-    (parseIdx i 32).bind fun I =>
+    (parseIdx i 256).bind fun I =>
     (b.ifs[I]?.getD none).bind fun rec =>
     let r := attrs.foldl (fun acc t => acc.bind (fun c => (splitKV t).bind (fun (k, v) => setIfaceAttr c false k v))) (some rec.cfg)
     r.bind fun c =>
@@ -121,7 +121,7 @@ def blockStep (w : World) (b : BlockSide) (toks0 : List String)
     let r := attrs.foldl (fun acc t => acc.bind (fun g => (splitKV t).bind (fun (k, v) => setGlobAttr g k v))) (some b.glob)
     r.map fun g => (w, { b with glob := g }, ["ok"], [])
   | "rx" :: i :: hex :: rest =>
-    (parseIdx i 32).bind fun I =>
+    (parseIdx i 256).bind fun I =>
     (b.ifs[I]?.getD none).bind fun rec =>
     (parseHex hex).bind fun frame =>
     if frame.length > rxLimit rec then none else
@@ -131,13 +131,13 @@ def blockStep (w : World) (b : BlockSide) (toks0 : List String)
     some (w, { b with ifs := b.ifs.set! I (some { rec with img := img, st := st }), curTx := b.curTx ++ sentOf fx },
           fx.map showFx ++ (match flt with | some f => [showFault f] | none => []) ++ [showSt I st], [])
   | ["dump", i] =>
-    (parseIdx i 32).bind fun I =>
+    (parseIdx i 256).bind fun I =>
     (b.ifs[I]?.getD none).bind fun rec =>
     some (w, b, showObsAll I rec.st ++ [showSt I rec.st], [])
   | ["note", _] => some (w, b, ["ok"], [])
   | "relay" :: a :: bb :: rest =>
-    (parseIdx a 32).bind fun A =>
-    (parseIdx bb 32).bind fun Bi =>
+    (parseIdx a 256).bind fun A =>
+    (parseIdx bb 256).bind fun Bi =>
     if (b.ifs[A]?.getD none).isNone || (b.ifs[Bi]?.getD none).isNone then none else
     let zero := rest == ["zero"]
     let frames := (b.prevTx.filter (fun p => p.1 == A)).map (·.2)
@@ -153,7 +153,7 @@ def blockStep (w : World) (b : BlockSide) (toks0 : List String)
          out ++ [s!"deliver {Bi} {toHex frame}"] ++ fx.map showFx ++ (match flt with | some f => [showFault f] | none => []))) (w, b, [])
     some (r.1, r.2.1, r.2.2 ++ [showSt Bi (((r.2.1.ifs[Bi]?.getD none).map (·.st)).getD none)], [])
   | "linuxrx" :: i :: m :: s :: hex :: rest =>
-    (parseIdx i 32).bind fun I =>
+    (parseIdx i 256).bind fun I =>
     (parseIdx m 16).bind fun M =>
     (parseIdx s 16).bind fun S =>
     (b.ifs[I]?.getD none).bind fun rec =>
@@ -170,7 +170,7 @@ def blockStep (w : World) (b : BlockSide) (toks0 : List String)
     some (w, { b with ifs := b.ifs.set! I (some { rec with img := img, st := st }), curTx := b.curTx ++ sentOf fx },
           fx.map showFx ++ (match flt with | some f => [showFault f] | none => []) ++ [showSt I st], [(M, fm'), (S, fs')])
   | ["ev", i, hex, av, tb] =>
-    (parseIdx i 32).bind fun I =>
+    (parseIdx i 256).bind fun I =>
     (b.ifs[I]?.getD none).bind fun rec =>
     (parseHex hex).bind fun frame =>
     if !av.startsWith "avail=" || !tb.startsWith "tbl=" then none else
